@@ -27,6 +27,10 @@ CONSTANTS Guard,        \* BOOLEAN: TRUE = as coded (bad components refused); FA
 \* name grammar
 \* ---------------------------------------------------------------------------------------------------
 Kinds == {"P", "D", "E", "a", "C", "L", "U"}   \* ..  .  (empty)  plain  C:  long(255)  non-ASCII
+\* look-alikes of `..` that are ordinary (Normal) components for Path and kernel alike, but that a textual "clean-up"
+\* (remove "../", trim dots / spaces) can turn into a real `..`:  ...   ....   ".. " (dot dot space)
+LookAlikes == {"T", "Q", "S"}
+ExtKinds == Kinds \cup LookAlikes
 Seps  == {"f", "b"}                            \* /  \
 IsNormalTok(c) == c \notin {"P", "D", "E"}
 CompSeqs(maxc) == UNION {[1..n -> Kinds] : n \in 1..maxc}
@@ -39,9 +43,9 @@ SystemPath(n) == n.c
 \* ---------------------------------------------------------------------------------------------------
 \* the file-system neighbourhood
 \* ---------------------------------------------------------------------------------------------------
-Cwd    == <<"p1", "p2", "work">>
+Cwd    == <<"d1", "d2", "p1", "p2", "work">>      \* deep enough that 6 levels of `..` stay inside the sandbox
 OutAbs == Cwd \o <<"out">>
-StandInRoot == <<"r1", "r2", "root">>          \* existing directories the harness redirects leading-separator names to
+StandInRoot == <<"r1", "r2", "r3", "r4", "r5", "root">>          \* existing directories the harness redirects leading-separator names to
 Drive  == <<"C:drive">>                        \* where a windows Prefix path lands (another volume)
 OutForms == {"rel", "abs", "dotrel", "trail"}
 OutRaw(form) == CASE form = "rel"    -> <<"out">>
